@@ -177,7 +177,8 @@ class EBB3:
             nickname = "" # Clear nickname in this case
 
         try:
-            self.command('ST,' + nickname)
+            if not self.command('ST,' + nickname):
+                return False
             self.name = nickname
             return True
         except (serial.SerialException, serial.serialutil.PortNotOpenError):
